@@ -180,6 +180,11 @@ func (s *LinearState) Add(ctx *Context, id string, x Map) (string, error) {
 		return id, err
 	}
 
+	// The lock covers the store, too: storage and memory have to see
+	// concurrent writers of an id in the same order.
+	s.slock(ctx, false)
+	defer s.sunlock(ctx, false)
+
 	pair := &Pair{[]byte(id), bs}
 	if err = s.store.Add(ctx, s.Name, pair); err != nil {
 		return id, err
@@ -192,8 +197,6 @@ func (s *LinearState) Add(ctx *Context, id string, x Map) (string, error) {
 		}
 	}
 
-	// Maybe protect the store (above), too.
-	s.slock(ctx, false)
 	if _, isRule := m["rule"]; isRule {
 		if _, have := s.Facts[id]; have {
 			// Hope we're really replacing a rule.
@@ -202,7 +205,6 @@ func (s *LinearState) Add(ctx *Context, id string, x Map) (string, error) {
 	}
 	s.uncacheRule(id)
 	s.Facts[id] = RawFact{m, bs}
-	s.sunlock(ctx, false)
 
 	return id, nil
 }
@@ -226,16 +228,16 @@ func (s *LinearState) Rem(ctx *Context, id string) (bool, error) {
 
 func (s *LinearState) rem(ctx *Context, id string, lock bool) (bool, error) {
 	Log(DEBUG, ctx, "LinearState.rem", "id", id)
+	// The lock covers the store, too (see Add).
+	if lock {
+		s.slock(ctx, false)
+		defer s.sunlock(ctx, false)
+	}
 	_, err := s.store.Remove(ctx, s.Name, []byte(id))
 	// ToDo: Consider what's returned.
 	if err != nil {
 		Log(ERROR, ctx, "LinearState.rem", "id", id, "error", err)
 		return false, err
-	}
-	// Maybe protect the store (above), too.
-	if lock {
-		s.slock(ctx, false)
-		defer s.sunlock(ctx, false)
 	}
 	s.uncacheRule(id)
 	_, had := s.Facts[id]
